@@ -656,6 +656,8 @@ class Translator:
                     seen.add(key)
                     uniq.append(c)
             cands = list(reversed(uniq))
+        if 'nth' in seg and 'of_n' in seg and len(cands) == seg['of_n']:
+            cands = [cands[seg['nth']]]          # several statements of the same shape: the n-th of exactly of_n, in source order
         if len(cands) != 1:
             raise astdump.ExtractionError('segment %s: %d statements of kind %s mention %s (code moved or rewritten?)'
                                           % (cname, len(cands), seg['kind'], seg.get('mentions')))
